@@ -2403,6 +2403,35 @@ fn check_disk(rep: &mut Report, drv: &mut Driver, p: &Program, keep: &dyn Fn(usi
             let _ = std::fs::remove_dir_all(&root);
         }
     }
+    // a file or module directory whose name is not identifier-shaped cannot be a module:
+    // it must be reported, not turned into a module whose printed name collides with others
+    if noise & (1 << 26) != 0 {
+        for (kind, rel) in [("file", "aa.bb.roto"), ("file", "my-mod.roto"), ("dir", "bad.dir")] {
+            write_tree(p, 0, &root, keep, tags, 0);
+            if kind == "file" {
+                std::fs::write(root.join(rel), "fn ff() -> i64 { 0 }\n").expect("write");
+            } else {
+                std::fs::create_dir_all(root.join(rel)).expect("mkdir");
+                std::fs::write(root.join(rel).join("mod.roto"), "fn ff() -> i64 { 0 }\n").expect("write");
+            }
+            let got = catch_unwind(AssertUnwindSafe(|| match FileTree::read(&root) {
+                Ok(tree) => compile_and_observe(tree, rt, &Ask { calls: vec![], gets: vec![] }, false).base.show(),
+                Err(e) => strip_ansi(&format!("{e}")),
+            }))
+            .unwrap_or_else(|_| format!("panic:{}", PANIC_MSG.lock().map(|g| g.clone()).unwrap_or_default()));
+            rep.evaluations += 1;
+            rep.hist("disk_invalid_name", if got.contains("not a valid Roto identifier") { "rejected" } else { "accepted" });
+            if !got.contains("not a valid Roto identifier") {
+                violate(
+                    rep,
+                    &format!("`{rel}` is not identifier-shaped but discovery did not reject it: {}", got.chars().take(160).collect::<String>()),
+                    "discovery:invalid-module-name",
+                    json!({"case": ident, "variant": label, "entry": rel}),
+                );
+            }
+            let _ = std::fs::remove_dir_all(&root);
+        }
+    }
 }
 
 fn check_case(rep: &mut Report, drv: &mut Driver, p: &Program, ident: J, tier: &str, index: u64) -> CaseResult {
@@ -2550,8 +2579,29 @@ fn main() {
                 println!("// scope {}", canon_dump(s, &p.names));
             }
         }
+        Some("dir") => {
+            // compile a directory (or file) and call `fn() -> i64` functions by path (debugging aid)
+            let rt = Runtime::new();
+            let r = catch_unwind(AssertUnwindSafe(|| {
+                let tree = FileTree::read(&args[2]).map_err(|e| strip_ansi(&format!("{e}")))?;
+                println!("files: {:?}", tree.files.iter().map(|f| (f.module_name.clone(), f.children.clone())).collect::<Vec<_>>());
+                let mut pkg = tree.compile(&rt).map_err(|e| strip_ansi(&format!("{e}")))?;
+                for name in &args[3..] {
+                    match pkg.get_function::<fn() -> i64>(name) {
+                        Ok(f) => println!("{name}() = {}", f.call()),
+                        Err(_) => println!("{name}: not retrievable"),
+                    }
+                }
+                Ok::<(), String>(())
+            }));
+            match r {
+                Ok(Ok(())) => {}
+                Ok(Err(e)) => println!("ERROR {}", e.lines().take(3).collect::<Vec<_>>().join(" | ")),
+                Err(_) => println!("PANIC {}", PANIC_MSG.lock().map(|g| g.clone()).unwrap_or_default()),
+            }
+        }
         _ => {
-            eprintln!("usage: c13 run <seed> <quick|thorough> | replay <json> | show <seed> <index>");
+            eprintln!("usage: c13 run <seed> <quick|thorough> | replay <json> | show <seed> <index> | dir <path> <fn>…");
             std::process::exit(64);
         }
     }
